@@ -1012,14 +1012,13 @@ func pruneEdges(hnp hashAndPos, numAdds, numLeaves uint64, forestRows, prevFores
 		}
 
 		currentStartPos := startPositionAtRow(row, forestRows)
-		prevStartPos := startPositionAtRow(row, prevForestRows)
 		offset := target - currentStartPos
 
-		maxPos, err := maxPositionAtRow(row, prevForestRows, numLeaves-numAdds)
-		if err != nil {
-			return hashAndPos{}, err
-		}
-		if prevStartPos+offset <= maxPos {
+		// The amount of positions on this row that existed before the add.
+		// NOTE: maxPositionAtRow can't be used here as it returns 0 for both
+		// 0 and 1 leaves on row 0.
+		prevCount := (numLeaves - numAdds) >> row
+		if offset < prevCount {
 			prevTargetsWithHash.Append(target, hnp.hashes[i])
 		}
 	}
